@@ -61,7 +61,8 @@ def generate(seed, tier):
             "weights": [rng.randint(1, 4) for _ in spec["edges"]], "K": K, "sut_seed": rng.choice([0, 0, 1, rng.randint(0, 10**5), rng.randint(0, 10**5), rng.randint(0, 10**5)]),
             "n_real": rng.randint(1, 3), "max_iter": rng.randint(1, 30 if tier == "quick" else 80),
             "normalizeU": rng.random() < 0.4, "baseline_r0": rng.random() < 0.5,
-            "min_value_par": rng.choice([0.0, 0.0, 1e-5])}
+            "min_value_par": rng.choice([0.0, 0.0, 1e-5]),
+            "init": rng.choice([None, None, None, "u0", "w0", "both"]), "init_seed": rng.randint(0, 10**6)}
 
 
 # --------------------------------------------------------------------- the seams
@@ -122,10 +123,32 @@ def _uninstall(saved):
     M.np, M.time = saved
 
 
+_START = {}
+
+
+def _start_arrays(case, h):
+    """The user's start arrays: ONE pair of array objects per case, handed to both same-seed runs."""
+    key = (case["seed"], case.get("init"))
+    if key not in _START:
+        r = np.random.RandomState(case.get("init_seed", 0))
+        N = h.num_nodes()
+        D = max(len(e) for e in h.get_edges())
+        _START.clear()
+        _START[key] = (r.random_sample((N, case["K"])) + 0.05, r.random_sample((D - 1, case["K"])) + 0.05)
+    return _START[key]
+
+
 def _fit_mt(case, run_idx, clock_mode, perturb):
     from hypergraphx.communities.hypergraph_mt.model import HypergraphMT
 
     h = _gen.build_hypergraph(case["spec"], weights=case["weights"], weighted=case["weighted"])
+    extra = {}
+    if case.get("init"):
+        u0, w0 = _start_arrays(case, h)
+        if case["init"] in ("u0", "both"):
+            extra["initialize_u0"] = u0
+        if case["init"] in ("w0", "both"):
+            extra["initialize_w0"] = w0
     saved, clock, info = _install(case, run_idx, clock_mode)
     fac = Facade(derive(case["seed"], "globals", run_idx))
     try:
@@ -134,7 +157,7 @@ def _fit_mt(case, run_idx, clock_mode, perturb):
                 fac.perturb(7)
             m = HypergraphMT(n_realizations=case["n_real"], max_iter=case["max_iter"], min_value_par=case["min_value_par"],
                              verbose=False, check_convergence_every=1)
-            u, w, L = m.fit(h, K=case["K"], seed=case["sut_seed"], normalizeU=case["normalizeU"], baseline_r0=case["baseline_r0"])
+            u, w, L = m.fit(h, K=case["K"], seed=case["sut_seed"], normalizeU=case["normalizeU"], baseline_r0=case["baseline_r0"], **extra)
     finally:
         _uninstall(saved)
     return h, m, np.array(u), np.array(w), float(L), clock, info
@@ -228,6 +251,8 @@ def execute(case):
                 "maxL": [L, L2], "max_abs_du": float(np.max(np.abs(u - u2))) if u.shape == u2.shape else None,
                 "train_info_equal": t1 == t2, "clock_events": clock2.events, **ctx})
         stats["mt_fits"] += 1
+        if case.get("init"):
+            stats["runs_with_user_start_arrays"] = stats.get("runs_with_user_start_arrays", 0) + 1
         # HySC
         from hypergraphx.communities.hy_sc.model import HySC
 
